@@ -119,3 +119,22 @@ def is_log_open(fn, term):
         return True
     e = df.operand_expr(fn, term["args"][1])
     return df.mentions_deep(fn, e, lambda x: df.is_const(x, ".pc/applied-patches"))
+
+
+def error_kinds_tested(fn, source_pred):
+    """[(kind name, term/where block)] for every comparison of `io::Error::kind()` of an error that derives from a call satisfying
+    source_pred(call expr) with a constant ErrorKind, and every match arm on such a kind() - i.e. the error kinds this function gives
+    a meaning of their own."""
+    from . import dataflow as df, guards, patterns as pt
+    out = []
+    for g in guards.find_bool_guards(fn, lambda x: isinstance(x, tuple) and x and x[0] == "call" and x[1].split("::")[-1] in ("eq", "ne") and len(x[2]) == 2):
+        a, b = g["expr"][2]
+        for k_, c_ in ((a, b), (b, a)):
+            if df.is_call(k_, "io::error::Error::kind") and df.mentions(k_, source_pred):
+                pv = guards.promoted_value(fn, c_)
+                out.append((pv[2] if pv and pv[0] == "enum" else "?", g["bb"]))
+    for sw in pt.discr_switches(fn, lambda e, rv: df.is_call(e, "io::error::Error::kind")):
+        if df.mentions(sw["expr"], source_pred):
+            for var in sw["edges"]:
+                out.append((var, sw["bb"]))
+    return out
